@@ -131,6 +131,7 @@ pub struct Entries<'a, F: 'a> {
     // if the CFB tree structure is modified during iteration.
     minialloc: &'a Arc<RwLock<MiniAllocator<F>>>,
     stack: Vec<(PathBuf, u32, bool)>,
+    num_yielded: usize,
 }
 
 impl<'a, F> Entries<'a, F> {
@@ -140,7 +141,8 @@ impl<'a, F> Entries<'a, F> {
         parent_path: PathBuf,
         start: u32,
     ) -> Entries<'a, F> {
-        let mut entries = Entries { order, minialloc, stack: Vec::new() };
+        let mut entries =
+            Entries { order, minialloc, stack: Vec::new(), num_yielded: 0 };
         match order {
             EntriesOrder::Nonrecursive => {
                 let guard = minialloc.read().unwrap();
@@ -175,6 +177,14 @@ impl<'a, F> Iterator for Entries<'a, F> {
     fn next(&mut self) -> Option<Entry> {
         if let Some((parent, stream_id, visit_siblings)) = self.stack.pop() {
             let minialloc = self.minialloc.read().unwrap();
+            // Each entry is visited at most once; more than that means that
+            // the tree contains a cycle (an update that failed half-way can
+            // leave one behind), so stop rather than iterate forever.
+            if self.num_yielded >= minialloc.num_dir_entries() {
+                self.stack.clear();
+                return None;
+            }
+            self.num_yielded += 1;
             let dir_entry = minialloc.dir_entry(stream_id);
             let path = join_path(&parent, dir_entry);
             if visit_siblings {
